@@ -158,7 +158,9 @@ fn one_run(rng: &mut StdRng, k: usize) -> Result<Vec<J>, String> {
     }
     push(json!({"a": "Inject"}));
     if !up.is_empty() {
-        ctl.send_command(ResourceCommand::MeshApply { updates: up }).map_err(|e| e.to_string())?;
+        // (under load the wall-clock watchdog of a watchdog run may already have ended the loop: the command
+        // then has nowhere to go, and the fault the run is about has happened all the same)
+        let _ = ctl.send_command(ResourceCommand::MeshApply { updates: up });
     }
     // observe: Faulted, or (restart policies) cycles that keep coming
     let w0 = writes();
